@@ -348,6 +348,9 @@ pub fn c13(m: &mut Mon, w: &mut World, idx: usize) {
     if !new_data_class(w.runs[idx].out.code) || !w.runs[idx].stored {
         return;
     }
+    if w.sc.script.contains("$big") {
+        return; // size-limit scripts append equal values many times; they have their own oracle (monitors4::c13_limit)
+    }
     let d = m.decoded(w, idx);
     let run = &w.runs[idx];
     let eid = run.eid;
